@@ -8,7 +8,8 @@ Deciding comparisons (all Lean-side):
     the driver on the implementation's result and on the input, for all disjoint (X,Y,Z) of original
     nodes (`c10sepall`, n<=4) or for sampled queries (`msep` / `c10sep`).
 Cross-checks (not deciding): networkx.is_d_separator on the result, pywhy m_separated on the input,
-the Lean model `convS` (structure modulo new-node names) and `convMG` (separation)."""
+the Lean model `convS` (structure modulo new-node names) and `convMG` (separation).  On random cases
+the two Python cross-checks run on the first 3 of the 8 queries (they dominate the run time)."""
 import copy
 import itertools
 import re
@@ -168,7 +169,10 @@ def impl(case):
     out["new_names"] = [repr(v) for v in new]
     # cross-checks in Python (networkx d-separation on the result, pywhy m-separation on the input)
     py = []
-    for X, Y, Z in case.get("queries", []):
+    for qi, (X, Y, Z) in enumerate(case.get("queries", [])):
+        if qi >= case.get("pyq", 1 << 30):      # Python cross-check only on the first `pyq` queries
+            py.append(["-", "-"])
+            continue
         Xl, Yl, Zl = ({labs[v] for v in s} for s in (X, Y, Z))
         try:
             r = "T" if nx.is_d_separator(R, Xl, Yl, Zl) else "F"
@@ -284,9 +288,9 @@ def judge(case, got, ans):
             probs.append(("violation", "separation", "%s: result d-separated=%s, G m-separated=%s" % (q, onres, gG)))
         if gM != gG:
             probs.append(("corr", "model-sep", "%s: mSeparated (convMG G)=%s but mSeparated G=%s (theorem C10.mSeparated_convMG)" % (q, gM, gG)))
-        if pr != onres:
+        if pr != "-" and pr != onres:
             probs.append(("corr", "xcheck-nx", "%s: networkx.is_d_separator(result)=%s, Lean mSeparated(result)=%s" % (q, pr, onres)))
-        if pm != gG:
+        if pm != "-" and pm != gG:
             probs.append(("corr", "xcheck-msep", "%s: pywhy m_separated(G)=%s, Lean mSeparated(G)=%s" % (q, pm, gG)))
     # model vs implementation, structure modulo new-node names
     if model is not None and "RL" in got:
@@ -375,7 +379,7 @@ def gen_cases(ctx):
                 fam = rng.choice(COLLIDING) if g["B"] and rng.random() < 0.8 else rng.choice(FAMILIES)
                 yield mk_case(rng, g, fam, "exh4", True, rng.sample(aq, 3), cls=CLS[gi % len(CLS)])
     # (ii) structured random, n <= 7
-    N = 4000 if tier == "quick" else 40000
+    N = 3000 if tier == "quick" else 40000
     for i in range(N):
         n = rng.choice((2, 3, 4, 5, 5, 6, 6, 7, 7))
         kind = rng.random()
@@ -397,6 +401,7 @@ def gen_cases(ctx):
         case = mk_case(rng, g, fam, "rnd", n <= (5 if tier == "thorough" else 4), qs, cls=cls, names=names)
         if i % 13 == 1:
             case["gattr"] = True
+        case["pyq"] = 3
         yield case
 
 
